@@ -301,7 +301,11 @@ func (ex *Exec) unop(fr *Frame, st *State, x *ssa.UnOp) Value {
 		ex.siteRecv(fr, st, ch, x.Pos())
 		if x.CommaOk {
 			el := x.Type().(*types.Tuple).At(0).Type()
-			return Tuple{[]Value{ex.fresh(st, "recv", el), TV{ts.Fresh("recv.ok", SBool)}}}
+			okT := ts.Fresh("recv.ok", SBool)
+			// ok is false only for a closed (and drained) channel
+			closedArr := ex.heapGet(st, "G:closed", SArray(SInt, SBool))
+			ex.assume(st.PC, ts.Implies(ts.Not(okT), ts.Select(closedArr, ch)))
+			return Tuple{[]Value{ex.fresh(st, "recv", el), TV{okT}}}
 		}
 		return ex.fresh(st, "recv", x.Type())
 	}
